@@ -121,6 +121,93 @@ def run_rest(scn, script, running, wall0, collect=None):
     return out
 
 
+def pair_state(it):
+    ev = lambda e: (type(e).__name__, e.name, tuple(sorted((k, repr(v)) for k, v in e.data.items())))
+    return (tuple(it.configuration), tuple(sorted((k, repr(v)) for k, v in it.context.items() if not callable(v))),
+            tuple((t, ev(e)) for t, e in it._internal_queue), tuple((t, ev(e)) for t, e in it._external_queue),
+            tuple(sorted((k, tuple(sorted(v))) for k, v in it._memory.items())), it.time)
+
+
+def pair_apply(pair, op):
+    """op on a pair of interpreters bound to each other: ('q', i, name) ('x', i) ('clock', d) -> outcome"""
+    from sismic.model import Event
+    if op[0] == 'q':
+        pair[op[1]].queue(Event(op[2]))
+        out = None
+    elif op[0] == 'clock':
+        for it in pair:
+            it.clock.time += op[1]
+        out = None
+    else:
+        try:
+            r = pair[op[1]].execute_once()
+            out = None if r is None else tuple((m.event and m.event.name, m.transition and (m.transition.source, m.transition.target),
+                                                tuple(m.entered_states), tuple(m.exited_states),
+                                                tuple((type(e).__name__, e.name) for e in m.sent_events)) for m in r.steps)
+        except Exception as e:  # noqa
+            out = ('raised', type(e).__name__)
+    return (out, pair_state(pair[0]), pair_state(pair[1]))
+
+
+def pair_check(rng, n, v, stats):
+    """Interpreters that talk to each other (bound both ways) are snapshotted TOGETHER - one pickle / one deepcopy of the
+    pair - as a client saving a whole system does: the copies must go on talking to each other, not to the originals, and
+    continue exactly like the originals; the originals must not notice."""
+    import sismic.io
+    from sismic.interpreter import Interpreter
+    nv = 0
+    prof = genchart.Profile(use_tick=False, use_k=False, p_send=0.85, p_action=0.9, p_contract=0.0, max_states=6, p_event_probe=False)
+    for k in range(n):
+        blobs = [pickle.dumps(genchart.valid_chart(rng, prof)) for _ in range(2)]
+
+        def mk():
+            a, b = (Interpreter(pickle.loads(bl)) for bl in blobs)
+            a.bind(b)
+            b.bind(a)
+            return (a, b)
+        script = []
+        for _ in range(rng.randint(8, 18)):
+            r = rng.random()
+            script.append(('q', rng.randrange(2), rng.choice(['e0', 'e1', 'e2'])) if r < 0.35 else
+                          (('clock', rng.choice([1, 2, 5])) if r < 0.45 else ('x', rng.randrange(2))))
+        ref = [pair_apply(p0, op) for p0 in [mk()] for op in script]
+        orig = mk()
+        snaps, got = [], []
+        for pos, op in enumerate(script):
+            if op[0] == 'x' and rng.random() < 0.5:
+                for kind in ('pickle', 'deepcopy'):
+                    try:
+                        cp = pickle.loads(pickle.dumps(orig)) if kind == 'pickle' else copy.deepcopy(orig)
+                        snaps.append((pos, kind, cp))
+                        stats['pair_snapshots'] = stats.get('pair_snapshots', 0) + 1
+                    except Exception as e:  # noqa
+                        nv += 1
+                        v.violation(dict(property=PROP, clause='%s of a pair of bound interpreters raised' % kind, error=repr(e),
+                                         charts=[sismic.io.export_to_yaml(pickle.loads(bl)) for bl in blobs], script=script, at=pos),
+                                    tag='pairerr%d' % k)
+            got.append(pair_apply(orig, op))
+        if got != ref:
+            i = next((j for j, (x, y) in enumerate(zip(got, ref)) if x != y), 0)
+            nv += 1
+            v.violation(dict(property=PROP, clause='a run of two bound interpreters during which snapshots of the pair are taken differs from '
+                                                    'the same run without snapshots (C18_undisturbed)', script=script, first_differing_operation=i,
+                             with_snapshots=got[i], without=ref[i], charts=[sismic.io.export_to_yaml(pickle.loads(bl)) for bl in blobs]),
+                        tag='pairund%d' % k)
+            continue
+        for pos, kind, cp in snaps:
+            cont = [pair_apply(cp, op) for op in script[pos:]]
+            stats['pair_continuation_ops'] = stats.get('pair_continuation_ops', 0) + len(cont)
+            if cont != ref[pos:]:
+                i = next((j for j, (x, y) in enumerate(zip(cont, ref[pos:])) if x != y), 0)
+                nv += 1
+                v.violation(dict(property=PROP, clause='the %s of a pair of interpreters bound to each other does not continue like the '
+                                                        'originals (C18_continue)' % kind, script=script, snapshot_before_operation=pos,
+                                 first_differing_operation=pos + i, copy=cont[i], original=ref[pos + i],
+                                 charts=[sismic.io.export_to_yaml(pickle.loads(bl)) for bl in blobs]), tag='pair%d_%d%s' % (k, pos, kind[0]))
+                break
+    return nv
+
+
 def main(tier, seed):
     import sismic.clock.clock as clockmod
     import sismic.io
@@ -253,6 +340,7 @@ def main(tier, seed):
                                     states=[n for n, _ in model_charts[key]['states']]))
     finally:
         clockmod.time = real_time
+    n_viol += pair_check(rng, 60 if tier == 'quick' else 800, v, stats)
     # (3) model correspondence (integer clocks only)
     sub = [c for c in model_cases if isinstance(c['op'][1], int) and all(isinstance(t, int) for t, _ in list(c['pre']['iq']) + list(c['pre']['eq']))]
     sub = sub[:1500] if tier == 'quick' else sub[:15000]
